@@ -18,6 +18,16 @@ NWORKERS = int(os.environ.get('VERIF_WORKERS', '16'))
 PINNED = '5d16593'      # the commit the line numbers in properties.jsonl refer to (first commit of /repo)
 
 
+
+def as_built_note(prop):
+    """The generators' own rule texts describe the first version of each workload; later additions are kept current in the manifest text."""
+    try:
+        import manifest_data
+        return ' || workload and oracles as built (kept current): ' + manifest_data.CHECKS[prop]['text']
+    except Exception:
+        return ''
+
+
 def anchored_functions(prop):
     """Names of the library functions whose bodies overlap the file:line ranges of the property's 'mechanism' anchors
     (line numbers looked up in the pinned commit; the names are then counted in the current tree's function-entry profile)."""
@@ -590,7 +600,7 @@ def main():
             'distinct_nontrivial': len(distinct),
             'distinct_plan_shapes_among_nontrivial': len(shapes),
             'distinct_measure': 'distinct_nontrivial counts distinct (plan-shape hash, 64-bit trace hash over all scheduling decisions, wire bytes and oracle-visible results) pairs among the runs that satisfy the interest predicate in rule; distinct_plan_shapes_among_nontrivial counts the plan shapes alone (operation kinds and counts, not argument values or schedules)',
-            'rule': rule,
+            'rule': rule + as_built_note(prop),
             'samples': samples[:3] if samples else [{'note': 'no non-trivial run recorded'}],
             'runs_per_variant': per_variant,
             'runs_per_hour': int(merged['evaluations'] / max(wall, 1e-3) * 3600),
